@@ -213,3 +213,18 @@ pub fn sign(key: &Address, msg: &[u8]) -> Vec<u8> {
     s.extend_from_slice(msg);
     s
 }
+
+/// the deposit power.CreateMiner demands right now (same formula as the miner constructor)
+pub fn create_miner_deposit(v: &Mvm) -> TokenAmount {
+    let power_state: PowerState = state(v, &STORAGE_POWER_ACTOR_ADDR).unwrap();
+    let reward_state: RewardState = state(v, &REWARD_ACTOR_ADDR).unwrap();
+    fil_actor_miner::initial_pledge_for_power(
+        &fvm_shared::bigint::BigInt::from(fil_actors_runtime::runtime::policy_constants::CREATE_MINER_DEPOSIT_POWER),
+        &reward_state.this_epoch_baseline_power,
+        &reward_state.this_epoch_reward_smoothed,
+        &power_state.this_epoch_qa_power_smoothed,
+        &v.circulating_supply(),
+        v.epoch() - power_state.ramp_start_epoch,
+        power_state.ramp_duration_epochs,
+    )
+}
